@@ -25,7 +25,7 @@ CONFIGS = ['scipy', 'noscipy']
 BUDGET = {'quick': {'scipy': 700, 'noscipy': 300}, 'thorough': {'scipy': 20000, 'noscipy': 6000}}
 EXHAUSTIVE_NOTE = "24-operation alphabet, per configuration: quick = all sequences of depth <= 2 + a deterministic third of depth 3; thorough = all of depth <= 3 + a sixth of depth 4"
 REQUIRED = ['op:set', 'op:setslice', 'op:insert', 'op:append', 'op:extend', 'op:iadd', 'op:del', 'op:delslice', 'op:pop', 'op:remove',
-            'op:reverse', 'op:set_start', 'op:set_end', 'q:length_tol', 'seg_history', 'eqhash_pairs', 'exhaustive_history']
+            'op:reverse', 'op:set_start', 'op:set_end', 'q:length_tol', 'seg_history', 'seg_history_hash_collision', 'eqhash_pairs', 'exhaustive_history']
 CASE_TIMEOUT = 120
 TIME_LIMIT = {'quick': 250, 'thorough': 3300}
 
@@ -111,6 +111,26 @@ def seg_history(draw):
 
 
 @st.composite
+def seg_collision_history(draw):
+    """a control point is reassigned to a value with the same Python hash (hash(-1) == hash(-2); hash(x + 0j) == hash((x - 1000003) + 1j)):
+    an object that recognises its own state by a hash must not mistake the new state for the old one"""
+    deg = draw(st.sampled_from([1, 2, 3, 3]))
+    pts = [list(draw(st.tuples(st.integers(-6, 6), st.integers(-6, 6)))) for _ in range(deg + 1)]
+    pts = [[float(p[0]) + 0.5 * i, float(p[1])] for i, p in enumerate(pts)]       # distinct points
+    i = draw(st.integers(0, deg))
+    how = draw(st.sampled_from(['minus_one_real', 'minus_one_imag', 'complex_pair']))
+    if how == 'minus_one_real':
+        pts[i][0], new = -1.0, [-2.0, pts[i][1]]
+    elif how == 'minus_one_imag':
+        pts[i][1], new = -1.0, [pts[i][0], -2.0]
+    else:
+        x = float(draw(st.integers(-5, 5)))
+        pts[i], new = [x, 0.0], [x - 1000003.0, 1.0]
+    q = draw(st.sampled_from([['length'], ['bbox'], ['point'], ['poly']]))
+    return {'kind': 'seg', 'spec': ['LQC'[deg - 1]] + pts, 'ops': [q, ['length'], ['set', i, new], ['length'], q, ['reversed_length']], 'collision': how}
+
+
+@st.composite
 def seg_tolerance_history(draw):
     """a nearly (but visibly not) uniform-speed quadratic/cubic whose length is asked loosely, then tightly: the case
     where tolerance arguments change the value in the pure-Python fallback"""
@@ -123,6 +143,13 @@ def seg_tolerance_history(draw):
     k = draw(st.sampled_from([3e-2, 1e-2, 3e-3, 1e-3, 3e-4]))
     q = draw(gen.point(sc))
     pts[1] = [pts[1][0] + k * (q[0] + sc), pts[1][1] + k * (q[1] - sc)]
+    if deg == 2 and draw(st.booleans()):
+        # inside the quadratic's "nearly uniform speed" branch (|start - 2 control + end| < 1e-3 |2 (control - start)|), where the
+        # numerical integration and hence the tolerance arguments are used, but bent enough for a loose answer to differ visibly
+        delta = draw(st.sampled_from([9e-4, 6e-4, 3e-4]))
+        ch = complex(b[0] - a[0], b[1] - a[1])
+        off = 0.5 * delta * ch * 1j
+        pts[1] = [(a[0] + b[0]) / 2 + off.real, (a[1] + b[1]) / 2 + off.imag]
     e1, d1 = draw(st.sampled_from([(1e-1, 0), (1e-2, 1), (1e-3, 2)]))
     e2, d2 = draw(st.sampled_from([(1e-12, 5), (1e-10, 5), (1e-12, 7)]))
     ops = [['length_tol', e1, d1], ['length_tol', e2, d2], ['length'], ['reversed_length']]
@@ -144,7 +171,7 @@ def strategy(tier, config):
         init = draw(st.lists(seg_s, min_size=0, max_size=3))
         ops = draw(st.lists(op_s(), min_size=2, max_size=40 if tier == 'thorough' else 25))
         return {'kind': 'hist', 'init': init, 'ops': ops}
-    return st.one_of(hist(), hist(), hist(), seg_history(), seg_tolerance_history(), eqhash_case())
+    return st.one_of(hist(), hist(), hist(), seg_history(), seg_tolerance_history(), eqhash_case(), seg_collision_history())
 
 
 # ---------------------------------------------------------------------------
@@ -384,6 +411,8 @@ def check_seg_history(case, ctx):
     cur = [list(p) for p in spec[1:]]
     names = {'L': ['start', 'end'], 'Q': ['start', 'control', 'end'], 'C': ['start', 'control1', 'control2', 'end']}[spec[0]]
     ctx.count('seg_history')
+    if case.get('collision'):
+        ctx.count('seg_history_hash_collision')
     did_query = did_mut = False
     for op in case['ops']:
         fresh = gen.build_seg([spec[0]] + cur)
